@@ -2,6 +2,7 @@
 package netpoll
 
 import (
+	"runtime"
 	"context"
 	"errors"
 	"fmt"
@@ -23,6 +24,7 @@ func init() {
 		t.Nontrivial, t.Sig = true, "closerace"
 	}
 	vcDirected["C07"] = []vcScenario{
+		func(t *vcTrial) { vcRunC07TimerTie(t, 400) },
 		// D5: timeouts on a NewFDConnection (no remote address)
 		func(t *vcTrial) { vcRunC07(t, vc07Cfg{Kind: "fdconn", Reads: 3, Force: "timeout", TimeoutKind: "timeout"}) },
 		func(t *vcTrial) { vcRunC07(t, vc07Cfg{Kind: "fdconn", Reads: 2, Force: "timeout", TimeoutKind: "deadline"}) },
@@ -52,6 +54,10 @@ var vc07Q = []int{vpInputAckAfterBook, vpInputAckBeforeTrigger, vpOnHupAfterClos
 
 func vcScenC07(t *vcTrial) {
 	r := t.R
+	if r.intn(80) == 0 {
+		vcRunC07TimerTie(t, r.rng(100, 400))
+		return
+	}
 	cfg := vc07Cfg{Kind: []string{"dial", "accept", "fdconn", "dial", "accept-hupwait"}[r.intn(5)], Reads: r.rng(1, 6)}
 	if cfg.Kind == "accept-hupwait" {
 		cfg.Force = []string{"peerclose", "", ""}[r.intn(3)]
@@ -604,4 +610,95 @@ func vcRunC07(t *vcTrial, cfg vc07Cfg) {
 	t.Nontrivial = parkedReads > 0
 	t.Sig = fmt.Sprintf("%s|%s|real=%v", cfg.Kind, outcomes, t.Plan.Realised())
 	var _ = atomic.LoadInt32
+}
+
+// vcRunC07TimerTie: the n-th byte of a timed read arrives at about the moment its timer expires
+// (the writer's lead is steered by feedback so that the read succeeds about as often as it times
+// out). A timeout "leaves later reads and their timers unaffected" - and so does a read that won the
+// race: the follow-up read has a long timeout and its byte comes a millisecond later; it may not
+// report ErrReadTimeout before its own timeout.
+func vcRunC07TimerTie(t *vcTrial, rounds int) {
+	t.P("variant", "read-timer tie, then a long-timeout read")
+	r := t.R
+	fds, err := syscall.Socketpair(syscall.AF_UNIX, syscall.SOCK_STREAM, 0)
+	if err != nil {
+		t.Inconclusive("socketpair: %v", err)
+		return
+	}
+	c, err := NewFDConnection(fds[0])
+	if err != nil {
+		syscall.Close(fds[0])
+		syscall.Close(fds[1])
+		t.Inconclusive("NewFDConnection: %v", err)
+		return
+	}
+	defer syscall.Close(fds[1])
+	defer c.Close()
+	T := time.Duration(r.rng(1, 4)) * time.Millisecond
+	lead := T - 100*time.Microsecond
+	ok, to, follow := 0, 0, 0
+	send := func(after time.Duration) chan struct{} {
+		done := make(chan struct{})
+		go func() {
+			defer close(done)
+			t0 := time.Now()
+			for time.Since(t0) < after { // spin: timer resolution matters here
+				runtime.Gosched()
+			}
+			syscall.Write(fds[1], []byte{7})
+		}()
+		return done
+	}
+	for i := 0; i < rounds && !t.Violated(); i++ {
+		c.SetReadTimeout(T)
+		sent := send(lead + time.Duration(r.intn(60))*time.Microsecond)
+		_, err := c.Reader().Next(1)
+		<-sent
+		switch {
+		case err == nil:
+			ok++
+			lead += 5 * time.Microsecond
+			c.Reader().Release()
+		case errors.Is(err, ErrReadTimeout):
+			to++
+			lead -= 10 * time.Microsecond
+			if lead < 0 {
+				lead = 0
+			}
+			// the byte arrives a little later: take it (untimed), so that the next round starts empty
+			c.SetReadTimeout(0)
+			if _, err := c.Reader().Next(1); err != nil {
+				t.Inconclusive("late byte: %v", err)
+				return
+			}
+			c.Reader().Release()
+			continue
+		default:
+			t.Violate("C07", "read_error", "round %d: Next(1) with a %v read timeout returned %v", i, T, err)
+			return
+		}
+		// the follow-up read
+		long := 2 * time.Second
+		c.SetReadTimeout(long)
+		sent = send(time.Millisecond)
+		t0 := time.Now()
+		_, err = c.Reader().Next(1)
+		el := time.Since(t0)
+		<-sent
+		follow++
+		if errors.Is(err, ErrReadTimeout) && el < long {
+			t.Violate("C07", "early_timeout", "round %d: Next(1) with a %v read timeout returned ErrReadTimeout after %v; the previous timed read on this connection (timeout %v) had been satisfied at about the moment its timer expired (stale timer tick?)", i, long, el, T)
+			return
+		}
+		if err != nil {
+			t.Violate("C07", "read_error", "round %d: follow-up Next(1) returned %v", i, err)
+			return
+		}
+		c.Reader().Release()
+	}
+	t.Stat("read_timer_tie_rounds", ok+to)
+	t.Stat("read_timer_tie_satisfied", ok)
+	t.Stat("read_timer_tie_timed_out", to)
+	t.Nontrivial = ok > 5 && to > 5
+	t.Sig = fmt.Sprintf("read-timer-tie|balanced=%v", t.Nontrivial)
 }
